@@ -32,7 +32,9 @@ REQUIRED = ['parse_serialize', 'serialize_parse_serialize', 'parse_serialize_twi
             'parsePoly_serializePoly', 'polyOfDict_polyToDict', 'parsePolyBody_polyBody', 'readCoefs1_perm', 'readCoefs1_sparse',
             'place_enum', 'place_perm', 'place_drop_fill', 'enumRows_eq', 'chunk_flatten', 'farr_parse', 'sizeOk_written',
             'reindex_idem', 'reindex_of_canon', 'finishArr_of_wf', 'dedupe_of_distinct', 'dedupe_idem', 'parseArray_canon',
-            'parseParams_canon', 'wfField_mono', 'Example.codec_laws']
+            'parseParams_canon', 'wfField_mono', 'Example.codec_laws',
+            # children handed to a parent of another namespace context
+            'wfValN_variant', 'wfField_variant', 'moved_roundtrip', 'moved_after_parse', 'serialize_moved_eq', 'moved_copy']
 
 SIZE_BASE = 1000000000
 FAMILY_URN = {
@@ -1109,6 +1111,14 @@ DEFECTS = {
         'parameters are written as <default:ModuleParameter> (unbound prefix) (sarpy/io/product/sidd2_elements/ProductProcessing.py)',
     'cphd1-empty-SegmentList-NumSegments': 'SegmentListType.to_node with an empty list appends <NumSegments>0</NumSegments> to the document root (parent None) '
         '(sarpy/io/phase_history/cphd1_elements/SceneCoordinates.py)',
+    'moved-child-writes-its-recorded-namespace': 'a structure that was created in one namespace context (e.g. read from a SICD document: it records '
+        '_xml_ns_key) and is then held by a parent of another context (a SIDD structure expecting sicommon children, or the reverse) writes its own '
+        'children under the key it recorded, not the key its parent hands down: SICD -> SIDD the values are lost on re-parse, SIDD -> SICD the document '
+        'has an unbound prefix (sarpy/io/xml/base.py Serializable.to_node: xml_ns_key = getattr(self, "_xml_ns_key", ns_key))',
+    'moved-parameters-keep-recorded-child-tag': 'a ParametersCollection records the element name of the field it was created for; ParametersDescriptor takes a '
+        'collection object over as it is, and ParametersCollection.to_node writes the recorded name, not the one of the field that holds it now: a collection '
+        'created as <Parameter> and handed to a field written as <Extension> (or the reverse) is written under the wrong element name and is lost on re-parse '
+        '(sarpy/io/xml/descriptors.py ParametersDescriptor.__set__, sarpy/io/xml/base.py ParametersCollection.to_node)',
     'xml-string-edge-whitespace-stripped': 'get_node_value strips the text of every node: leading/trailing whitespace of string values is lost, whitespace-only strings '
         'become empty (sarpy/io/xml/base.py get_node_value / parse_str)',
     'xml-empty-string-in-collection-becomes-None': 'an empty string in a string list or as a Parameter value is parsed back as None (get_node_value), and a Parameter value '
@@ -1130,8 +1140,13 @@ def unit_vector_tags():
     return out
 
 
-def find_triggers(x, path, out, depth=0):
-    """walk an instance; record (path, key, families) for every sub-object that is a known trigger"""
+def _nk(k):
+    return None if k in (None, 'default') else k
+
+
+def find_triggers(x, path, out, depth=0, ctx=None):
+    """walk an instance; record (path, key, families) for every sub-object that is a known trigger.
+    ctx: the namespace key the parent hands to this object when it writes it (None for the structure that is serialised)"""
     import inspect
     import numpy
     from sarpy.io.xml import descriptors as D
@@ -1140,19 +1155,25 @@ def find_triggers(x, path, out, depth=0):
         return
     if isinstance(x, SerializableArray):
         for i in range(x.size):
-            find_triggers(x[i], f'{path}[{i}]', out, depth + 1)
+            find_triggers(x[i], f'{path}[{i}]', out, depth + 1, ctx)
         return
     if isinstance(x, (list, tuple)):
         for i, it in enumerate(x):
-            find_triggers(it, f'{path}[{i}]', out, depth + 1)
+            find_triggers(it, f'{path}[{i}]', out, depth + 1, ctx)
         return
     if isinstance(x, numpy.ndarray) and x.dtype == object:
         for i, it in enumerate(x.ravel()):
-            find_triggers(it, f'{path}[{i}]', out, depth + 1)
+            find_triggers(it, f'{path}[{i}]', out, depth + 1, ctx)
         return
     if not isinstance(x, Serializable):
         return
     n, mod = type(x).__name__, type(x).__module__
+    # an object that was created in one namespace context (it records the key) and is written by a parent of another one
+    own = ctx
+    if '_xml_ns_key' in getattr(x, '__dict__', {}):
+        own = _nk(x.__dict__['_xml_ns_key'])
+        if depth > 0 and own != ctx:
+            out.append((path, 'moved-child-writes-its-recorded-namespace', ('xml',)))
 
     def get(f):
         try:
@@ -1181,9 +1202,13 @@ def find_triggers(x, path, out, depth=0):
         v = get(f)
         if v is None:
             continue
-        if isinstance(inspect.getattr_static(type(x), f, None), D.UnitVectorDescriptor):
+        d_ = inspect.getattr_static(type(x), f, None)
+        if isinstance(d_, D.ParametersDescriptor) and getattr(v, '_child_tag', d_.child_tag) != d_.child_tag:
+            # a collection created under another element name and handed to this structure as the object it is
+            out.append((path + '.' + f, 'moved-parameters-keep-recorded-child-tag', ('xml',)))
+        if isinstance(d_, D.UnitVectorDescriptor):
             out.append((path + '.' + f, 'unit-vector-renormalised-on-reassignment', ('stability',)))
-        find_triggers(v, path + '.' + f, out, depth + 1)
+        find_triggers(v, path + '.' + f, out, depth + 1, _nk(type(x)._child_xml_ns_key.get(f, own)))
     # children kept in private lists by hand-written classes (GeoInfo, SubRegions, ProcessingModules)
     for priv in ('_GeoInfo', '_GeoInfos', '_SubRegions', '_ProcessingModules'):
         v = getattr(x, priv, None)
@@ -1338,7 +1363,80 @@ def plan(info, tier, rng):
 def run_case(gen, info, q, mode, seed):
     c = info['classes'][q]
     rng = random.Random(seed)
+    if isinstance(mode, tuple) and mode[0] == 'moved':
+        return c, moved_instance(gen, info, c, mode, rng)
     return c, gen.instance(c, rng, mode)
+
+
+def moved_instance(gen, info, B, mode, rng):
+    """('moved', donor class, donor field, receiving field): a structure of the donor class is written to XML and read back (its
+    children now are objects that were created in the donor's namespace context), the child / collection held by the donor field
+    is handed, as the object it is, to a fresh structure of the receiving class"""
+    _, aq, fa, fb = mode
+    A = info['classes'][aq]
+    a = gen.instance(A, rng, ('only', fa))
+    if getattr(a, fa, None) is None:
+        raise CannotConstruct(f'{aq}.{fa} not populated')
+    is_root = aq in set(info['roots'])
+    urn = family_urn(A)
+    try:
+        pa = from_xml(A, to_xml(a, 'default' if is_root else urn, is_root), is_root)
+    except Exception as e:
+        raise CannotConstruct(f'donor {aq} does not survive XML: {type(e).__name__}')
+    child = getattr(pa, fa, None)
+    if child is None:
+        raise CannotConstruct(f'donor {aq}.{fa} lost on parse')
+    b = gen.instance(B, rng, ('only', fb))
+    try:
+        setattr(b, fb, child)
+    except Exception as e:
+        raise CannotConstruct(f'{B.__name__}.{fb} refuses the object: {type(e).__name__}')
+    got = getattr(b, fb, None)
+    if got is not child:
+        raise CannotConstruct(f'{B.__name__}.{fb} did not take the object over as it is')
+    return b
+
+
+def field_type_key(d):
+    """what kind of object a field holds (objects of the same key can be handed from one owner to another)"""
+    from sarpy.io.xml import descriptors as D
+    import tables_xml
+    if isinstance(d, D.ParametersDescriptor):
+        return ('params',)
+    if isinstance(d, (D.SerializableDescriptor, D.UnitVectorDescriptor)):
+        return ('obj', tables_xml.qual(d.the_type))
+    if isinstance(d, D.SerializableArrayDescriptor):
+        return ('arr', tables_xml.qual(d.child_type), d.array_extension.__name__, d.child_tag, d.minimum_length, d.maximum_length)
+    return None
+
+
+def moved_plan(info, rng, tier):
+    """(receiving class, ('moved', donor class, donor field, receiving field), seed): every kind of child object that several
+    owners hold, handed between owners of different namespace contexts (and some of the same one)"""
+    import inspect
+    classes = info['classes']
+    owners = {}
+    for q in sorted(classes):
+        c = classes[q]
+        fam = next((p_ for p_ in list(FAMILY_URN) + [f'sarpy.io.product.sidd{v}_elements' for v in '123'] if q.startswith(p_)), '?')
+        for f_ in c._fields:
+            k = field_type_key(inspect.getattr_static(c, f_, None))
+            if k is not None:
+                owners.setdefault(k, []).append((q, f_, (fam, c._child_xml_ns_key.get(f_))))
+    out = []
+    per_key = 4 if tier == 'quick' else 40
+    for k in sorted(owners, key=str):
+        os_ = owners[k]
+        if len(os_) < 2:
+            continue
+        pairs = [(a, b) for a in os_ for b in os_ if a[:2] != b[:2]]
+        rng.shuffle(pairs)
+        diff = [p_ for p_ in pairs if p_[0][2] != p_[1][2]]
+        same = [p_ for p_ in pairs if p_[0][2] == p_[1][2]]
+        n = per_key * (12 if k == ('params',) else 1)
+        for a, b in diff[:n] + same[:max(1, n // 4)]:
+            out.append((b[0], ('moved', a[0], a[1], b[1]), rng.getrandbits(48)))
+    return out
 
 
 def run(tier):
@@ -1362,12 +1460,17 @@ def run(tier):
                        for l in sorted({tables_xml.construct_family(v) for v in info['labels'].values()})},
         'class_notes': {q: inf['notes'] for q, (k, inf) in sorted(info['construct'].items()) if k == 'rows' and inf.get('notes')},
         'no_longer_modelled_as_expected': info['regressions'],
+        'untranslated_classes': info['untranslated'], 'unreadable_rules': info['rule_failures'],
         'transcribed_functions_pinned': len(info['pins']), 'transcribed_functions_changed': info['pin_changes'],
     }
     broken = chk.prove(['SarpyModel.Props.C05', 'SarpyModel.Gen.XmlTables', 'SarpyModel.Drivers'], 'SarpyModel.Props.C05',
                        'Sarpy.Props.C05', REQUIRED, gen_info)
     for m, why in info['import_failures']:
         broken.append(f'element module {m} does not import: {why}')
+    for w in info['rule_failures']:
+        broken.append('translator: ' + w)
+    for q_, w in info['untranslated'].items():
+        broken.append(f'translator could not read class {q_}: {w}')
     for k in info['pin_changes']:
         # a function of the generic machinery that Spec.XmlFmt transcribes by hand changed (normalised AST): the transcription is stale
         broken.append(f'{k} changed since Spec.XmlFmt was transcribed from it (pinned AST in translate/xml_base_pins.json)')
@@ -1414,20 +1517,25 @@ def run(tier):
             if isinstance(d_, (_D.StringEnumDescriptor, _D.IntegerEnumDescriptor, _D.StringRegexDescriptor)) and not d_.strict:
                 ncases += [(q, ('only', f_), rng.getrandbits(48)) for _ in range(1 if tier == 'quick' else 5)]
     stats['lenient_enumeration_fields'] = len({(q, m[1]) for q, m, _ in ncases})
-    for which, (q, mode, seed) in [(0, c) for c in cases] + [(1, c) for c in extra] + [(2, c) for c in lcases] + [(3, c) for c in ncases]:
+    mcases = moved_plan(info, random.Random(rng.getrandbits(48)), tier)
+    for which, (q, mode, seed) in [(0, c) for c in cases] + [(1, c) for c in extra] + [(2, c) for c in lcases] + [(3, c) for c in ncases] + [(4, c) for c in mcases]:
         g = egen if which == 1 else (Generator(nonstandard={(q, mode[1])}) if which == 3 else gen)
         c = classes[q]
         mname = mode if isinstance(mode, str) else mode[0]
         try:
             _, x = run_case(g, info, q, mode, seed)
         except CannotConstruct as e:
-            if which != 2:
+            if which == 4:
+                stats['moved_not_applicable'] = stats.get('moved_not_applicable', 0) + 1
+            elif which != 2:
                 stats['cannot_construct'] += 1
                 cannot.setdefault(q, str(e)[:200])
             continue
         if which != 2:
             stats['instances'] += 1
             hk = mname + ('+edge-strings' if which == 1 else '+value-outside-enumeration' if which == 3 else '')
+            if which == 4:
+                stats['moved_children'] = stats.get('moved_children', 0) + 1
             mode_hist[hk] = mode_hist.get(hk, 0) + 1
             classes_seen.add(q)
         is_root = q in roots
@@ -1452,6 +1560,7 @@ def run(tier):
         trig = []
         if f:
             find_triggers(x, c.__name__, trig)
+            trig.sort(key=lambda t_: 0 if t_[1].startswith('moved-') else 1)     # state carried by a moved child explains what is under it
         for ff in f:
             ff.update(cls=q, mode=str(mode), seed=seed, edge_strings=which == 1, nonstandard=[q, mode[1]] if which == 3 else None)
             ff['key'] = classify(ff, trig, unit_tags, which == 1)
@@ -1484,7 +1593,7 @@ def run(tier):
         if len(samples) < 3 and present and 'family-urn' in xmls:
             samples.append(f'{q}: {xmls["family-urn"][:200]!r}')
         # ---- model correspondence for table-driven classes
-        if q in info['outside'] or which not in (0, 3):
+        if q in info['outside'] or which not in (0, 3, 4):
             continue
         if f:
             # the instance already fails the oracle (reported above): its XML is not what the generic machinery alone would write
@@ -1518,7 +1627,7 @@ def run(tier):
                 dict_tokens(x, gcid, mc, texts, de)
                 i3 = drv.ask(f'xml dict {tabs} 0 {",".join(dt)}') if uname == list(xmls)[0] else None
                 jobs.append((q, mode, seed, uname, texts, ','.join(rtoks), ','.join(toks), ','.join(de), i1, i2, i3))
-                if uname == list(xmls)[0] and uname != 'no-namespace' and all(info['tables'][info['order'][i_]] is not None for i_ in order):
+                if which == 0 and uname == list(xmls)[0] and uname != 'no-namespace' and all(info['tables'][info['order'][i_]] is not None for i_ in order):
                     # only classes whose whole closure is inside the model: inside a black box the model keeps the document as it is
                     foreign_cands.append((q, mode, seed, c, is_root, urn, uname, b, dict(nsmap)))
             except Infra:
@@ -1669,6 +1778,10 @@ def run(tier):
         'the model, which is reported as a broken obligation against the committed list translate/xml_constructs_expected.json; the templates themselves and the '
         'transcription of base.py into Spec.XmlFmt are validated by the node-by-node differential (own documents and edited documents), not proved',
         'classes that stay outside (translator.outside, with the reason for each) are black boxes in the theorems and are covered by the oracle only',
+        'children handed from one parent to another (moved stream): the model has no per-object state, so serialisation depends on the value and the table of the '
+        'receiving class only (moved_roundtrip, serialize_moved_eq; variants_ok decides for the current tables that a python class has the same fields, kinds and '
+        'bounds in every namespace context); the implementation is held to that by handing parsed children / collections / arrays between owners of different '
+        'contexts and element names and round-tripping the receiver - two listed findings are exactly state that travels with the child',
         'legacy branches of from_node (SICD < 1.0 MatchInfo / Radiometric / WgtType text form, SIDD version dispatch) are outside the model: the claim is for documents '
         'that do not take them',
         'reader leniencies not modelled: int() accepts signs, blanks and leading zeros in size / index / exponent attributes, a negative exponent wraps around '
